@@ -58,6 +58,15 @@ type Op struct {
 	SubOK   bool     `json:"sub_ok,omitempty"`
 	Resched bool     `json:"resched,omitempty"` // refresh: accounts available (duties re-fetched)
 	Slots   []uint64 `json:"slots,omitempty"`
+	// Scheduling of the goroutines around the scheduler (not part of the model's operation: the code
+	// does nothing after ScheduleJob has returned, so neither changes what the model predicts).
+	// Hold (sched, refresh): every goroutine of this operation that calls ScheduleJob for an
+	// attestation job loses the processor once the job is in the scheduler's table and before it
+	// continues; the operations that follow (the job starts, finishes, is cancelled by a refresh,
+	// ...) happen in that gap.
+	// Rel (any operation): the goroutines held so far continue, and come to rest, before this operation.
+	Hold bool `json:"hold,omitempty"`
+	Rel  bool `json:"rel,omitempty"`
 }
 
 type SoakInput struct {
@@ -314,7 +323,7 @@ func runSoakInBubble(t *testing.T, in *SoakInput) (obs SoakObs) {
 	defer cancel()
 	e := &soakEnv{spe: in.SPE, gates: map[uint64]*soakGate{}, nextVal: 1000}
 	ct := mocks.NewChainTime(in.SPE)
-	sched := mocks.NewRecScheduler()
+	sched := newGapScheduler(mocks.NewRecScheduler())
 	level := zerolog.Disabled
 	mon := nullmetrics.New()
 
@@ -439,6 +448,11 @@ func runSoakInBubble(t *testing.T, in *SoakInput) (obs SoakObs) {
 
 	for i := range in.Ops {
 		op := &in.Ops[i]
+		if op.Rel {
+			sched.release()
+			synctest.Wait()
+		}
+		sched.setHold(op.Hold && (op.K == "sched" || op.K == "refresh"))
 		switch op.K {
 		case "sched":
 			setNow(op.Cur)
@@ -492,8 +506,11 @@ func runSoakInBubble(t *testing.T, in *SoakInput) (obs SoakObs) {
 			obs.Problem = "unknown op " + op.K
 		}
 		synctest.Wait()
+		sched.setHold(false)
 		obs.Rows = append(obs.Rows, observe(op))
 	}
+	sched.release()
+	synctest.Wait()
 
 	// let every executing job end before the bubble is left
 	e.mu.Lock()
